@@ -199,6 +199,33 @@ fn paths_for(facts: &Value, rng: &mut Rng) -> Vec<(String, Vec<Step>)> {
     out
 }
 
+/// index steps written with leading zeros or many digits, through text only
+fn check_index_spellings(ctx: &mut Ctx) {
+    let list: Vec<Value> = (0..12).map(|i| Value::Int(100 + i)).collect();
+    let mut m = BTreeMap::new();
+    m.insert("xs".to_string(), Value::Vec(list.clone()));
+    m.insert("same".to_string(), Value::Map([("same".to_string(), Value::Map([("same".to_string(), Value::Int(3))].into_iter().collect())), ("other".to_string(), Value::Int(2))].into_iter().collect()));
+    let facts = Value::Map(m);
+    let cases: Vec<(&str, Value)> = vec![
+        ("xs.007", Value::Int(107)), ("xs.7", Value::Int(107)), ("xs.10", Value::Int(110)), ("xs.11", Value::Int(111)), ("xs.12", Value::None), ("xs.0011", Value::Int(111)),
+        ("xs.00000000000000000000000000001", Value::Int(101)), ("same.same.same", Value::Int(3)), ("same.other", Value::Int(2)), ("same.same.other", Value::None),
+        ("facts.same.same.same", Value::Int(3)), ("facts.xs.3", Value::Int(103)), ("[xs, xs].1.2", Value::Int(102)), ("[[i1, i2], [i3]].1.0", Value::Int(3)), ("{a: {a: i1, b: i2}}.a.b", Value::Int(2)),
+    ];
+    for (text, want) in cases {
+        ctx.count();
+        ctx.hit("path:index-spellings");
+        match guard(|| Expr::parse(text)) {
+            Ok(Ok(e)) => {
+                let obs = eval_real(&e, &facts);
+                if !matches!(&obs, Obs::Val(v) if crate::refeval::same(v, &want)) {
+                    ctx.violation("C10 path-spelling", format!("{text} resolved to {} instead of {want:?}", show_obs(&obs)), json!({"text": text}));
+                }
+            }
+            other => ctx.violation("C10 path-text-rejected spelling", format!("{text}: {other:?}"), json!({"text": text})),
+        }
+    }
+}
+
 fn check_names(ctx: &mut Ctx, rng: &mut Rng) {
     // symbols and functions with near-miss names; lookups must hit exactly the registered name
     let names = ["Name", "name", "NAME", "nam", "name_", "facts", "a"];
@@ -283,12 +310,36 @@ fn run(ctx: &mut Ctx) {
                 Value::Map(m)
             }
         };
-        let paths = paths_for(&facts, &mut rng);
+        let mut paths = paths_for(&facts, &mut rng);
+        // longer random walks (4..7 steps), biased to follow existing structure
+        for _ in 0..60 {
+            let len = 4 + rng.below(4);
+            let mut cur = facts.clone();
+            let mut steps = vec![];
+            for _ in 0..len {
+                let s = match &cur {
+                    Value::Map(m) if !m.is_empty() && rng.chance(4, 5) => Step::Field(m.keys().nth(rng.below(m.len())).unwrap().clone()),
+                    Value::Vec(v) if !v.is_empty() && rng.chance(4, 5) => Step::Idx(rng.below(v.len() + 1)),
+                    _ => {
+                        if rng.chance(1, 2) { Step::Field(KEYS[rng.below(KEYS.len())].to_string()) } else { Step::Idx(rng.below(3)) }
+                    }
+                };
+                cur = match walk_steps(cur.clone(), std::slice::from_ref(&s)) {
+                    Ok(v) => v,
+                    Err(_) => Value::None,
+                };
+                steps.push(s);
+            }
+            paths.push(("facts".to_string(), steps));
+        }
         for (k, (root, steps)) in paths.iter().enumerate() {
             let textable = is_plain_ident(root) && k % 7 == 0;
             check_path(ctx, &facts, root, steps, textable);
         }
         check_names(ctx, &mut rng);
+    }
+    if ctx.shard == 0 {
+        check_index_spellings(ctx);
     }
     ctx.rng = rng;
 }
